@@ -91,40 +91,7 @@ def r_visitor(root):
     if not oki:
         f0, n0, at0 = sites[0] if sites else ("visit_textx_model", None, [])
         out.append(Finding("C22", "C22.i", L, "TextXVisitor." + f0, " ".join(ast.unparse(n0).split())[:90] if n0 is not None else "comments_model", "no site hands the grammar's Comment rule to the parser under the sole condition that the grammar defines one (conditions found: %s): for some configuration the parser has no comment model and comments are not skipped where whitespace skipping is active" % [[a for a, p in at] for _f, _n, at in sites], witness="skipws=False for the metamodel, a rule with [skipws], a comment inside that rule"))
-    # ---------------- C21.d
-    vs = find_i(root, L, "TextXVisitor.visit_str_match"); gs = CFG(vs)
-    dec = [n for n in gs.nodes if n.ast is not None and n.kind in ("stmt", "cond") and any(callee_name(c) == "decode_escapes" for c in calls(n.ast))]
-    kw = [n for n in gs.nodes if n.ast is not None and n.kind in ("stmt", "cond") and any(callee_name(c) in ("match", "fullmatch", "search") and "keyword_regex" in ast.unparse(c.func) for c in calls(n.ast))]
-    if not dec or not kw: raise AnalysisError("visit_str_match: decode / keyword test not found")
-    inst += 1
-    # the raw grammar spelling (the definition of the literal taken from the parse tree) may reach the keyword test only
-    # through the guard of the decoding (the backslash test)
-    fis = sem.info(vs)
-    dcall = next(c for c in calls(vs, own=True) if callee_name(c) == "decode_escapes")
-    gtests = [g for g, pol in fis.guards(dcall) if pol and "\\\\" in ast.unparse(g)]              # the backslash test that guards the decoding
-    dguard = [n for n in gs.nodes if n.kind == "cond" and any(n.ast is g for g in gtests)]
-    if not dguard: raise AnalysisError("visit_str_match: guard of the escape decoding not found")
-    # every path to the keyword test passes the decision 'does the literal contain an escape?' (and with it the decoding)
-    # (paths through an exception handler are left out: the handler of the raw read binds the empty literal)
-    okd = all(gs.paths_avoiding(gs.entry, k, lambda n: n in dguard or n.kind == "handler") is None for k in kw)
-    # ... and what it tests is the decoded text: a definition `v = decode_escapes(...)` reaches the tested variable (through copies)
-    def _decoded_reaches(name, at_ast, depth=0, seen=None):
-        seen = seen if seen is not None else set()
-        nd = fis.node_of(at_ast)
-        for d in (fis.rd.defs_of(nd, name) if nd is not None else []):
-            if (name, d) in seen or depth > 5: continue
-            seen.add((name, d)); a = fis.cfg.nodes[d].ast
-            if fis.cfg.nodes[d].kind == "stmt" and isinstance(a, ast.Assign):
-                if any(callee_name(c) == "decode_escapes" for c in calls(a.value)): return True
-                if isinstance(a.value, ast.Name) and _decoded_reaches(a.value.id, a, depth + 1, seen): return True
-        return False
-    for k in kw:
-        for c in calls(k.ast):
-            if callee_name(c) in ("match", "fullmatch", "search") and "keyword_regex" in ast.unparse(c.func) and c.args and isinstance(c.args[0], ast.Name):
-                if not _decoded_reaches(c.args[0].id, c): okd = False
-    ob("C21", "C21.d", L, "TextXVisitor.visit_str_match", "escape decoding precedes the keyword classification", okd)
-    if not okd:
-        out.append(Finding("C21", "C21.d", L, "TextXVisitor.visit_str_match", " ".join(ast.unparse(kw[0].ast).split())[:90], "the keyword test sees the literal as spelled in the grammar, not the decoded text: a keyword written with an escape ('caf\\xe9') is not recognised as keyword-like and matches without a word boundary", witness="autokwd=True, 'it\\x65m' followed by a word character"))
+    # ---------------- C21.d: decided by evaluation (sa/rules/c21.py)
     # ---------------- C20.d
     cls = find(t, "TextXVisitor")
     for fn in [f for f in cls.body if isinstance(f, ast.FunctionDef)]:
@@ -227,7 +194,7 @@ def r_rule_params_eval(root):
     for name in ("skipws", "ws", "split", "other"):
         for value in [True, False] + STR:
             inst += 1
-            env = {"children": [[name, value]]}
+            env = {"children": [[name, value]], "__module__": load(root, L), "__functions__": {k_: v_ for k_, v_ in helper_functions(root, L, "TextXVisitor.visit_rule_params").items() if k_.startswith("_") and not k_.startswith("__")}}
             try:
                 res = ("ret", pyeval.run_block(fn.body, env))
             except pyeval.Raised as r: res = ("raise", r.cls)
